@@ -72,7 +72,11 @@ CHECKS = {
             "replies, DA1 variants, ioctl pixel size present/zero, swap, queries disabled, mute terminal, every order of "
             "the operations) every schedule of the choice tree over atomic replies (1..k replies per wake-up, delay 0 / "
             "1 ms / 0.98 x remaining timeout). An independent reference judges the reported values, that no bytes remain "
-            "unread, nothing is echoed, elapsed virtual time <= timeout per query, attributes restored.",
+            "unread, nothing is echoed, elapsed virtual time <= timeout per query, attributes restored. Replies may also "
+            "be queued before the library starts reading (eager delivery at tcdrain), colour replies come in lower / "
+            "UPPER / mixed case, and every history of length <= 4/5 over {colours bare / hex=False / hex=True, "
+            "name+version, cell size, disable/enable_queries, win-size swap on/off} is compared with the responder "
+            "under the settings in force.",
             "Terminal and timing are the vtty model with atomic in-order replies. Identity strings limited to "
             "name(version) / name version. Combinations the docs leave undecided are not judged. Late replies are "
             "outside the premise: only time, no exception and attributes are judged for them.",
@@ -85,7 +89,9 @@ CHECKS = {
             "keystroke schedule the fault-free run is judged, then one exception (KeyboardInterrupt / OSError / "
             "termios.error, BrokenPipeError at stdout points) is injected instead of and right after every numbered "
             "environment call (each tty call, the caller's more(), every stdout write/flush/sleep of draw including its "
-            "finally block). Oracle: struct termios afterwards == before, byte for byte.",
+            "finally block). Oracle: struct termios afterwards == before, byte for byte; and after every execution "
+            "(fault-free or faulted at any call, including the restoring tcsetattr) a fixed fault-free read_tty_all() + "
+            "DA1 query in the same process must leave the attributes as it finds them.",
             "Faults strike at environment-call boundaries only. Excluded by definition: a fault instead of the restoring "
             "tcsetattr itself. read_tty combinations documented to wait forever are not enumerated. Single faults only.",
             "DESIGN.md 3/C13"),
@@ -225,7 +231,9 @@ CHECKS = {
             "objects and compared with a reference model written from the documentation: yielded Frame (number, "
             "duration, size, output), loop countdown, raised exception type, state unchanged after a rejected operation, "
             "renderable.tell() untouched, pending seeks of INDEFINITE sources handed over exactly once. Runs to the "
-            "fixpoint of (implementation canon, model state); merging cross-checked by unmerged enumeration.",
+            "fixpoint of (implementation canon, model state) for 16 (quick) / 72 (thorough) configurations; the canon captures "
+            "unknown attributes, generator locals and cache-entry fields generically; merging cross-checked by unmerged "
+            "enumeration (75k / 4.2M histories).",
             "Harness renderable (vlib/renderables.py) is a pure function of (frame, size, duration, args); reference "
             "model vlib/c08_model.py trusted; alphabets and bounds in the evidence file.",
             "DESIGN.md 3/C08, B.1"),
@@ -238,7 +246,9 @@ CHECKS = {
             "with a terminal resize, close} on a multi-frame GIF for each render style. Oracle: every yielded frame "
             "identical in the pair; under unchanged (size, duration, args) the cached render iterator renders each "
             "frame number at most once (render counter of the harness renderable).",
-            "Relational check: no hand-written expectation; the uncached twin is the reference. Bounds in the evidence.",
+            "Relational check: no hand-written expectation; the uncached twin is the reference (image iterators are also "
+            "compared with format() of an independent twin image). Bounded alphabets; full image alphabet for the "
+            "block style only; a padding change counts as a settings change.",
             "DESIGN.md 3/C09"),
     "C10": ("model_checking",
             "explicit-state BFS over renderable/iterator histories x exhaustive fault index enumeration",
@@ -246,11 +256,14 @@ CHECKS = {
             "_from_render_data_ with finalize True/False and caller-owned data), next, seek, set_*, close, close again, "
             "drop reference + gc, finalize caller data} on an instrumented harness renderable (definite and "
             "INDEFINITE), x a fault injected into the k-th _render_, the k-th _get_render_data_ or size validation for "
-            "all k (RenderError, StopIteration, AttributeError, KeyboardInterrupt). The harness keeps strong references "
+            "all k (RenderError, StopIteration, AttributeError, KeyboardInterrupt), into the terminal-size query, or at every "
+            "stdout write/flush/sleep of a draw incl. its closing sequence; incompatible render arguments through every "
+            "entry point. The harness keeps strong references "
             "to every RenderData so __del__ cannot mask a missing finalization. Oracle per data object: finalize count "
             "<= 1 always, == 1 once its operation / iterator is over, == 0 for caller-owned data; no _render_ with "
             "finalized data; closed iterators stop / raise FinalizedIteratorError; close() and finalize() idempotent.",
-            "One fault per history; virtual stdout/clock for draw(); bounds in the evidence file.",
+            "Up to 3 faults per history; virtual stdout/clock for draw(); after a BaseException out of next() only 'at most "
+            "once / eventually' is demanded; one live iterator and one caller data at a time; bounds in the evidence.",
             "DESIGN.md 3/C10"),
 }
 
